@@ -482,6 +482,9 @@ def allowed_sets(prog: Program, func: FuncInfo, tables=None):
         if isinstance(e, ast.Subscript):
             t = table_of(e.value)
             if isinstance(t, dict):
+                if isinstance(e.slice, ast.Name) and state.get(e.slice.id) is not None:
+                    # the index is itself bounded: only the entries it can select
+                    return {t[k] for k in state[e.slice.id] if k in t}
                 return set(t.values())
         if isinstance(e, ast.Call) and isinstance(e.func, ast.Attribute) and e.func.attr == "get" and e.args:
             t = table_of(e.func.value)
